@@ -43,9 +43,44 @@ PROPS = {
         ],
         "expect_probes": ["c14.answers", "c14.held2", "srv.both_slots_held", "srv.id2_remembered"],
     },
+    "C05": {
+        "rule": "real iodined (ASan+UBSan, no recovery) with an established canary session (and sometimes a second client mid-handshake) receives 30-600 generated hostile "
+                "datagrams per run from up to 3 unauthenticated hosts (random bytes; DNS-shaped with pointer loops/over-long labels/truncation/high bytes; every tunnel command "
+                "letter with adversarial lengths, userids and alphabets; raw frames incl. zlib bombs), hostile tun packets, and truncation/bit-flip of the sessions' own traffic; "
+                "oracle: no sanitizer report, crash, hang or exit, and the canary satisfies the C02(b) recovery oracle afterwards. non-trivial = >=10 hostile datagrams reached the "
+                "server socket in a run whose canary completed its handshake; distinct = distinct run fingerprints",
+        "jobs": [
+            {"scen": "hostile_srv", "sets": {}, "quick": 2000, "thorough": 150000},
+        ],
+        "own_viol": ["C05"],
+        "expect_probes": ["c05.hostile_delivered", "c05.raw_frames", "c05.cmd.v", "c05.cmd.l", "c05.cmd.i", "c05.cmd.z", "c05.cmd.s", "c05.cmd.o", "c05.cmd.y", "c05.cmd.r", "c05.cmd.n", "c05.cmd.p", "c05.cmd.d"],
+    },
+    "C06": {
+        "rule": "real iodine client (ASan+UBSan) against the real server with a hostile on-path party replacing a seeded subset of answers (at handshake steps, login, or in the tunnel) by "
+                "generated hostile answers (hostile tunnel payloads in well-formed DNS for every type/codec; RDLENGTH games; bad TXT chunking; hostile CNAME names; 1-300 MX/SRV records with odd "
+                "preferences and pointer expansion; lying counts; truncation) plus off-path spoofed answers; oracle: no sanitizer report, crash or hang in the client. non-trivial = >=1 answer replaced or spoofed; "
+                "distinct = distinct run fingerprints",
+        "jobs": [
+            {"scen": "hostile_cli", "sets": {}, "quick": 4000, "thorough": 300000},
+            {"scen": "hostile_cli", "sets": {"raw": True}, "quick": 500, "thorough": 30000},
+        ],
+        "expect_probes": ["c06.replaced.v", "c06.replaced.l", "c06.replaced.y", "c06.replaced.z", "c06.replaced.s", "c06.replaced.o", "c06.replaced.r", "c06.replaced.n", "c06.replaced.p", "c06.replaced.i", "c06.raw_replaced"],
+    },
+    "C13": {
+        "rule": "real client login against the real server behind an on-path party that replaces every login answer with a generated hostile reply (four fields from a grammar of shell metacharacters, "
+                "inet_addr-accepted oddities, out-of-range numbers) in all downstream encodings; every system() argument of the client is tokenised: fixed words, strict dotted quads, mtu in 201..1500 only. "
+                "non-trivial = >=1 login answer replaced; distinct = distinct run fingerprints",
+        "jobs": [
+            {"scen": "hostile_cli", "sets": {"focus": "login"}, "quick": 6000, "thorough": 300000},
+        ],
+        "expect_probes": ["c06.login_replaced", "c13.system_calls"],
+    },
 }
 
 LEVEL_TEXT = {
+    "C05": "Exploration: sanitizer-instrumented real server inside live sessions under generated hostile datagram sequences (millions of datagrams per thorough run); a clean batch is evidence of absence for the generated classes only.",
+    "C06": "Exploration: sanitizer-instrumented real client with hostile answers substituted at every handshake step and in the tunnel; sampling over answer shapes and positions.",
+    "C13": "Exploration: every system() argument produced by the real client under generated hostile login replies is validated token by token.",
     "C01": "Exploration: thousands of seeded end-to-end sessions of the unmodified client(s) and server under loss, duplication, reordering and delay; every tun write is compared byte for byte against the ledger of packets read from a peer's tun. Sampling over (configuration x traffic x fault schedule); a clean batch is evidence, not proof.",
     "C02": "Exploration: (a) clean-path exactly-once in-order delivery of every accepted fitting packet, (b) bounded-time recovery (eventually-always under continuing traffic) after a 2-40 s fault prefix, over seeded configurations and fault schedules in virtual time.",
     "C10": "Exploration: an independent strict RFC 1035 parser judges every DNS-mode datagram the real programs emit across all simulated sessions; answers are matched to the query they echo.",
@@ -63,13 +98,10 @@ NOT_APPLICABLE = {
 NOT_CLAIMED = {
     "C03": "check under construction in this session (auth scenario with model clients); not claimed until it is sound",
     "C04": "check under construction in this session (multi-session scenario); not claimed until it is sound",
-    "C05": "check under construction in this session (hostile datagrams against the server); not claimed until it is sound",
-    "C06": "check under construction in this session (hostile replies against the client); not claimed until it is sound",
     "C08": "check under construction in this session; not claimed until it is sound",
     "C09": "check under construction in this session; not claimed until it is sound",
     "C11": "check under construction in this session (relay family); not claimed until it is sound",
     "C12": "check under construction in this session (residue-differential pairs); not claimed until it is sound",
-    "C13": "check under construction in this session (login reply injection); not claimed until it is sound",
     "C15": "check under construction in this session; not claimed until it is sound",
     "C16": "check under construction in this session; not claimed until it is sound",
     "C20": "check under construction in this session (forwarding scenario); not claimed until it is sound",
